@@ -147,12 +147,28 @@ Send(c, dest, kind, forged) ==
     /\ UNCHANGED <<uid, nextId, queue, allow, rules>>
 
 (* a message addressed to the bus itself is answered by the bus and never forwarded *)
+(* calls addressed to the bus that never change its state: each is answered exactly once, by the bus, to the caller.  *)
+(*   NotImplemented : a member the bus declares but does not implement (ListActivatableNames)                        *)
+(*   WrongArgs      : RequestName with the flags missing          OtherPath / OtherIface : not the bus object / interface *)
+(*   Ping           : org.freedesktop.DBus.Peer on the bus object ReservedName : RequestName for a unique-looking name   *)
+(*   UserOfSelf     : GetConnectionUnixUser of a connection that authenticated anonymously (no user known)            *)
+(*   UserOfNobody   : GetConnectionUnixUser of a name nobody owns                                                     *)
+BusCalls == {"GetId", "HelloAgain", "NoSuchMethod", "SignalToBus", "NotImplemented", "WrongArgs", "OtherPath", "OtherIface",
+             "Ping", "ReservedName", "UserOfSelf", "UserOfNobody"}
 ToBus(c, what) ==
     /\ Live(c)
     /\ out' = IF what = "SignalToBus" THEN NoOut          \* a signal addressed to the bus: swallowed
                ELSE Only(c, <<CASE what = "GetId" -> Ret("GetId", 0)
                                [] what = "HelloAgain" -> ErrM("Failed")
-                               [] what = "NoSuchMethod" -> ErrM("UnknownMethod")>>)
+                               [] what = "NoSuchMethod" -> ErrM("UnknownMethod")
+                               [] what = "NotImplemented" -> ErrM("org.txdbus.PythonException.NotImplementedError")
+                               [] what = "WrongArgs" -> ErrM("InvalidArgs")
+                               [] what = "OtherPath" -> ErrM("UnknownObject")
+                               [] what = "OtherIface" -> ErrM("UnknownMethod")
+                               [] what = "Ping" -> Ret("Ping", 0)
+                               [] what = "ReservedName" -> ErrM("InvalidArgs")
+                               [] what = "UserOfSelf" -> ErrM("org.freedesktop.DBus.Error")
+                               [] what = "UserOfNobody" -> ErrM("NameHasNoOwner")>>)
     /\ UNCHANGED <<uid, nextId, queue, allow, rules>>
 
 AddMatch(c, r) ==
@@ -201,7 +217,7 @@ Next ==
     \/ \E c \in Client, k \in 1..MaxId : GetUniqueOwner(c, k)
     \/ \E c \in Client, n \in Name, kind \in {"call", "return", "error", "signal"}, f \in BOOLEAN : Send(c, <<"n", n>>, kind, f)
     \/ \E c \in Client, k \in 1..MaxId, kind \in {"call", "return", "error", "signal"}, f \in BOOLEAN : Send(c, <<"u", k>>, kind, f)
-    \/ \E c \in Client, w \in {"GetId", "HelloAgain", "NoSuchMethod", "SignalToBus"} : ToBus(c, w)
+    \/ \E c \in Client, w \in BusCalls : ToBus(c, w)
     \/ \E c \in Client, r \in Rules : AddMatch(c, r) \/ RemoveMatch(c, r)
     \/ \E c \in Client, s \in Sigs : Emit(c, s)
 
@@ -220,7 +236,7 @@ NextRouting ==
     \/ \E c \in Client, n \in Name : RequestName(c, n, TRUE, TRUE, FALSE) \/ ReleaseName(c, n)
     \/ \E c \in Client, n \in Name, kind \in {"call", "return", "error", "signal"}, f \in BOOLEAN : Send(c, <<"n", n>>, kind, f)
     \/ \E c \in Client, k \in 1..MaxId, kind \in {"call", "signal"}, f \in BOOLEAN : Send(c, <<"u", k>>, kind, f)
-    \/ \E c \in Client, w \in {"GetId", "HelloAgain", "NoSuchMethod", "SignalToBus"} : ToBus(c, w)
+    \/ \E c \in Client, w \in BusCalls : ToBus(c, w)
     \/ \E c \in Client, r \in Rules : AddMatch(c, r) \/ RemoveMatch(c, r)
     \/ \E c \in Client, s \in Sigs : Emit(c, s)
 SpecRouting == Init /\ [][NextRouting]_vars
